@@ -326,8 +326,26 @@ pub fn storm_spec(rng: &mut Rng, ctr: &mut u64) -> ReqSpec {
             } else {
                 ReqSpec::Valid { proto: P::Classic, size: size as u16, nonce_seed: *ctr, srv: SrvMode::Absent, vers: vec![] }
             };
-            let m = if rng.chance(3, 4) { Mutation::SwapFields(rng.below(4) as u8, rng.below(4) as u8) } else { Mutation::RepeatField(rng.below(4) as u8) };
-            ReqSpec::Mutant { base: Box::new(b), muts: vec![m] }
+            let muts = match rng.below(8) {
+                0..=2 => vec![Mutation::SwapFields(rng.below(4) as u8, rng.below(4) as u8)],
+                3 => vec![Mutation::RepeatField(rng.below(4) as u8)],
+                // a well-formed message without one of its fields (NONC, VER, the padding)
+                4 | 5 => vec![Mutation::DropField(rng.below(4) as u8)],
+                // one more (known) tag, then one offset word changed: with four or five fields an
+                // offset pair can decrease without touching the fields a server looks at
+                _ => {
+                    let extra = *rng.pick(&[r::PAD, r::ZZZZ, r::INDX, r::SIG, r::MAXT]);
+                    let mut v = vec![Mutation::AppendField { tag: extra, len: *rng.pick(&[0u16, 4, 32]) }];
+                    if rng.chance(1, 2) {
+                        v.push(Mutation::AppendField { tag: *rng.pick(&[r::PAD, r::ZZZZ, r::ROOT]), len: 0 });
+                    }
+                    if rng.chance(3, 4) {
+                        v.push(Mutation::SetOffset { index: rng.below(4) as u8, value: *rng.pick(&[0u32, 4, 8, 32, 36, 64, 68, 100, 1000, 1024, 0xffff_fffc]) });
+                    }
+                    v
+                }
+            };
+            ReqSpec::Mutant { base: Box::new(b), muts }
         }
         0 => ReqSpec::Garbage { len: if rng.chance(2, 3) { *rng.pick(&LEN_CLASSES) } else { rng.below(3000) as u32 }, seed: rng.next_u64() },
         1 | 2 => base,
